@@ -53,14 +53,29 @@ func eventView(t *Term) (*evtView, bool) {
 func (v *evtView) add(l []*Term) bool {
 	for _, a := range l {
 		a = strip(a)
-		if a.Op != "call" || a.Name != "sdk.NewAttribute" || len(a.Args) != 2 || !a.Args[0].IsConst() {
+		var key, val *Term
+		switch {
+		case a.Op == "call" && a.Name == "sdk.NewAttribute" && len(a.Args) == 2:
+			key, val = a.Args[0], a.Args[1]
+		case a.Op == "update" || a.Op == "zero":
+			// sdk.Attribute{Key: k, Value: v}: what NewAttribute builds (Index stays false)
+			fs := fieldsSet(a)
+			key, val = fs["Key"], fs["Value"]
+			if ix, set := fs["Index"]; set && !ix.IsFalse() {
+				return false
+			}
+			if val == nil {
+				val = &Term{Op: "const", Name: `""`, Typ: stringT}
+			}
+		}
+		if key == nil || val == nil || !key.IsConst() {
 			return false
 		}
-		k := strings.Trim(a.Args[0].Name, `"`)
+		k := strings.Trim(key.Name, `"`)
 		if _, dup := v.Attrs[k]; dup {
 			v.Dups = append(v.Dups, k)
 		}
-		v.Attrs[k] = a.Args[1]
+		v.Attrs[k] = val
 		v.Order = append(v.Order, k)
 	}
 	return true
@@ -76,9 +91,29 @@ func emitted(p *Path) (idx []int, views []*evtView, undecoded []int) {
 		if v, ok := eventView(ev.Call.Args[1]); ok {
 			idx = append(idx, i)
 			views = append(views, v)
-		} else {
-			undecoded = append(undecoded, i)
+			continue
 		}
+		// EmitEvents(sdk.Events{e1, e2, ...}): the listed events, in order
+		if l, isList := listOf(strip(ev.Call.Args[1])); isList && len(l) > 0 && strings.HasSuffix(ev.Call.Name, ".EmitEvents") {
+			all := true
+			var vs []*evtView
+			for _, e := range l {
+				v, ok := eventView(e)
+				if !ok {
+					all = false
+					break
+				}
+				vs = append(vs, v)
+			}
+			if all {
+				for _, v := range vs {
+					idx = append(idx, i)
+					views = append(views, v)
+				}
+				continue
+			}
+		}
+		undecoded = append(undecoded, i)
 	}
 	return
 }
